@@ -9,7 +9,7 @@ VERIF = os.path.dirname(os.path.dirname(os.path.abspath(__file__)))
 CLAIMED = {
     "C12": ("exploration",
             "deterministic simulation (scoped): structure-aware corruption of messages in a live inbound stream, parsed on the reader task and then touched by consumer, rule-matching, dispatch and caller tasks; oracle = no task panics",
-            "A hostile raw peer corrupts messages of all four types with 14 operators (hostile header strings, wrong-typed / missing / duplicated fields, invalid or deep signatures, bit flips, length edits that keep the frame consistent, fd counts, garbage bodies) while an unfiltered consumer reads every accessor and formats the message, rule streams match on arguments, an object server dispatches and a method call is pending. Any panic in any task is a violation.",
+            "A hostile raw peer corrupts messages of all four types with 15 operators (hostile header strings, wrong-typed / missing / duplicated fields, header field values replaced by deeply nested containers, invalid or deep signatures, bit flips, length edits that keep the frame consistent, fd counts, garbage bodies) while an unfiltered consumer reads every accessor and formats the message, rule streams match on arguments, an object server dispatches and a method call is pending. Any panic in any task is a violation.",
             "Scoped: 'every byte string' is a pure-function quantifier that simulation does not cover; this decides only the part where a corrupted message is parsed on one task and used on others.",
             "DESIGN.md §3 C12"),
     "C33": ("exploration",
@@ -19,7 +19,7 @@ CLAIMED = {
             "DESIGN.md §3 C33"),
     "C25": ("exploration",
             "deterministic simulation: a real tracking client (snapshot + ordered signal replay) against at/remove histories incl. (re)registering the ObjectManager, with an operation racing the snapshot",
-            "A real client takes GetManagedObjects while a server operation may run concurrently, then applies the InterfacesAdded/Removed signals it received since, in order and idempotently - the weakest client that could possibly work. After every further operation its view must equal a fresh listing (properties included).",
+            "A real client takes GetManagedObjects while a server operation may run concurrently, then applies the InterfacesAdded/Removed signals it received since, in order and idempotently - the weakest client that could possibly work. After every further operation its view must equal a fresh listing (properties included). Operations also run as concurrent pairs (add || add, add || remove, remove || snapshot, with an async yielding property getter); for those the oracle only asks that some order of the pair explains the client's final view.",
             "Nested managers are excluded (the implementation documents them as unsupported); one root manager or two sibling managers are used.",
             "DESIGN.md §3 C25"),
     "C28": ("exploration",
@@ -54,7 +54,7 @@ CLAIMED = {
             "DESIGN.md §3 C39"),
     "C30": ("exploration",
             "deterministic simulation: handlers that re-enter the object server, and calls issued at the earliest step after on-demand server creation; deadlock = quiescence with an unanswered call (no watchdog)",
-            "Method handlers, a property getter and a property setter that register/remove objects and emit signals are driven by 1..2 real client tasks; in the lazy variant the clients start exactly when object_server().at() has returned (single scheduler steps). The simulated world is closed, so a deadlock or a lost subscription is decided exactly as quiescence with an open call.",
+            "Method handlers, a property getter and a property setter that register/remove objects (including their own interface), emit signals, close or detach the connection are driven by 1..2 real client tasks; in the lazy variant the clients start exactly when object_server().at() has returned (single scheduler steps). The simulated world is closed, so a deadlock or a lost subscription is decided exactly as quiescence with an open call.",
             "No timeouts configured; interleavings at task-poll granularity.",
             "DESIGN.md §3 C30"),
     "C24": ("exploration",
@@ -64,12 +64,12 @@ CLAIMED = {
             "DESIGN.md §3 C24"),
     "C26": ("exploration",
             "deterministic simulation: seeded call mixes (valid, wrong path/interface/member/arguments, no-reply) in flight against the real object server and macro-generated handlers; replies decoded independently and compared with a table model",
-            "A raw peer keeps several calls in flight against the corpus interface registered at two paths (sync/async, &self/&mut self, fallible and custom-error handlers, handlers sleeping on the simulated clock). The handler log must equal exactly the matching calls, and each call must get exactly one reply with the right serial, signature and value or the right standard error.",
-            "The corpus is hand-written (10 methods), not generated per seed; the no-reply flag on error paths and an extra argument to a zero-argument method are judged leniently.",
+            "A raw peer keeps several calls in flight against the hand-written corpus interface registered at two paths and against 16 generated interfaces (about 90 methods whose signatures were drawn from the type grammar by tools/gen_corpus.py) (sync/async, &self/&mut self, fallible and custom-error handlers, handlers sleeping on the simulated clock). The handler log must equal exactly the matching calls, and each call must get exactly one reply with the right serial, signature and value or the right standard error.",
+            "The generated corpus is fixed per build (macros expand at compile time), not per run; the no-reply flag on error paths and an extra argument to a zero-argument method are judged leniently.",
             "DESIGN.md §3 C26"),
     "C29": ("exploration",
             "deterministic simulation: bursts of calls to spawn=false handlers that yield or sleep on the simulated clock, under seeded scheduling",
-            "Bursts of calls to a spawn = false interface (handlers returning, yielding, sleeping simulated microseconds; &self and &mut self) mixed with calls to a spawning interface. The start/end log of the no-spawn handlers must show no overlap and wire order; every call must be answered exactly once by quiescence.",
+            "Bursts of calls to a spawn = false interface (handlers returning, yielding, sleeping simulated microseconds; &self and &mut self) mixed with calls to a spawning interface, with and without NO_REPLY_EXPECTED. The start/end log of the no-spawn handlers must show no overlap and wire order; every call must be answered exactly once by quiescence.",
             "Wire order = the order the raw peer wrote the calls in.",
             "DESIGN.md §3 C29"),
     "C15": ("exploration",
@@ -114,7 +114,7 @@ CLAIMED = {
             "DESIGN.md §3 C17"),
     "C14": ("exploration",
             "deterministic simulation: seeded read-split/latency/schedule search over a simulated socket, independent frame oracle",
-            "Seeded search over message sequences x read splits (incl. enumerated cut points) x handshake leftovers x fd placement x schedules; every yielded message is compared byte-for-byte (and fd-for-fd) with what an independent marshaller sent. Sampling, not proof: a clean batch is evidence.",
+            "Seeded search over roles (client, server, pre-authenticated, bus client) x message sequences (incl. unknown-type messages that carry fds and must vanish with them) x read splits (incl. enumerated cut points) x handshake leftovers x fd placement (Linux SCM segment rule, or a liberal transport merging fd segments) x schedules; every yielded message is compared byte-for-byte (and fd-for-fd) with what an independent marshaller sent. Sampling, not proof: a clean batch is evidence.",
             "Trusts the simulated socket to follow Linux unix-stream recvmsg semantics (checked against a real socketpair once), the scheduler hook, and the harness's own marshaller.",
             "DESIGN.md §3 C14"),
 }
